@@ -253,6 +253,66 @@ fn main() {
             println!("HK|{}|{}|{}|{}|{}", fi, sp.name, reps * threads * 3, lost, sp.is_result as u8);
         }
     }
+    // REFRESHES under contention (C11 / C01): functions with `invalidate_on` whose entries all fit; six keys are stored, then every
+    // thread calls them in parallel with the check answering "stale" and a FRESH body value per call; once every caller has
+    // returned, a sequential pass with the check answering "valid" must be served from the cache (no execution) a value of the
+    // fresh generation for every key — a refresh whose store is dropped under contention leaves the stale value cached
+    {
+        let pool: Vec<_> = specs
+            .iter()
+            .filter(|s| !s.thread && s.has_io && s.ttl.is_none() && s.limit.map(|l| l >= 6).unwrap_or(true))
+            .filter(|s| {
+                rt::NEXT_TL.with(|n| n.set(Some(rt::Next { n: 1, ok: true, len: 4, ci: true, io: false })));
+                s.max_mem.map(|m| 6 * (corpus::WOULD[s.idx]().1 + 8) <= m).unwrap_or(true)
+            })
+            .cloned()
+            .collect();
+        let mut pick: Vec<_> = Vec::new();
+        for want_async in [false, true] {
+            let p2: Vec<_> = pool.iter().filter(|s| s.is_async == want_async).cloned().collect();
+            if !p2.is_empty() {
+                pick.push(p2[seed as usize % p2.len()].clone());
+            }
+        }
+        for sp in pick {
+            let fi = sp.idx;
+            let reps = (rounds / 8).max(20);
+            let (mut stale_left, mut reexec) = (0u64, 0u64);
+            for rep in 0..reps {
+                let _ = cachelito_core::invalidate_with(&sp.name, |_k| true);
+                let mut old = Vec::new();
+                for j in 0..6usize {
+                    rt::NEXT_TL.with(|n| n.set(Some(rt::Next { n: 10 + j as u64, ok: true, len: 4, ci: true, io: false })));
+                    old.push(corpus::CALLS[fi](j).1);
+                }
+                let barrier = Arc::new(Barrier::new(threads));
+                let mut hs = Vec::new();
+                for t in 0..threads {
+                    let barrier = barrier.clone();
+                    hs.push(std::thread::spawn(move || {
+                        barrier.wait();
+                        for i in 0..3usize {
+                            let j = (t + i * 2) % 6;
+                            let n = 100_000 + (rep as u64 % 50) * 1000 + (t as u64) * 10 + i as u64;
+                            rt::NEXT_TL.with(|x| x.set(Some(rt::Next { n, ok: true, len: 4, ci: true, io: true })));
+                            let _ = corpus::CALLS[fi](j);
+                        }
+                    }));
+                }
+                join_all(&mut hs, "refreshes-under-contention", fi, &sp.name);
+                let e0 = rt::EXEC.load(Ordering::SeqCst);
+                for j in 0..6usize {
+                    rt::NEXT_TL.with(|n| n.set(Some(rt::Next { n: 999_999, ok: true, len: 4, ci: true, io: false })));
+                    let r = corpus::CALLS[fi](j).1;
+                    if r == old[j] {
+                        stale_left += 1;
+                    }
+                }
+                reexec += rt::EXEC.load(Ordering::SeqCst) - e0;
+            }
+            println!("HI|{}|{}|{}|{}|{}", fi, sp.name, reps * threads * 3, stale_left, reexec);
+        }
+    }
     // concurrent RESETS (C15): k lookups, then every thread calls `stats_registry::reset(name)` at once, then (no lookup in
     // between) the counters must read 0 / 0; then k lookups again must read exactly k.  A reset that is not one atomic
     // overwrite per counter (snapshot-and-subtract, read-modify-write) lets two overlapping resets wrap a counter.
